@@ -104,7 +104,7 @@ def run_property(prop, tier, seed, workers=None, budget=None):
         mism = phase_xproc(run, B["xproc"], extra_programs=P.large_programs_c17() if prop == "C17" else ())
         for i, rs, d in mism[:2]:
             from .check import replay_dir
-            path = os.path.join(replay_dir(), "%s-xproc-%s.json" % (prop, rs))
+            path = os.path.join(replay_dir(), "%s-xproc-%s.json" % (prop, str(rs).replace(":", "_")))
             os.makedirs(os.path.dirname(path), exist_ok=True)
             prog = None
             if isinstance(rs, str) and rs.startswith("large:"):
